@@ -68,6 +68,9 @@ def infer_variant(chk) -> tuple[dict, list]:
     r = model.rename_symbols(probes["reusesExisting"])
     ds = {s for s in r.expression.free_symbols | set(r.parameter_defaults) if isinstance(s, sp.Symbol) and s.name == "d"}
     variant["reusesExisting"] = len(ds) == 1
+    # has finding F1 been repaired? (two symbols with different assumptions sent to one fresh name)
+    r = model.rename_symbols({"a": "k", "m_0": "k"})
+    variant["unifiesFresh"] = len({s for s in r.parameter_defaults if s.name == "k"}) == 1
     for switch, ren in probes.items():
         fails, _ = oracle.check_case(model, ren, rng=None, numeric=False)
         if fails and not variant[switch]:
@@ -160,14 +163,26 @@ class C17Property:
     # ------------------------------------------------------------------ correspondence
     def correspondence(self, chk, tier, seed):  # noqa: C901, PLR0912, PLR0915
         from tools.corr import C17_corr as corr
+        from tools.search import C17_oracle as oracle_mod
+
+        self._history = []
 
         rng = common.rng_for(PROP_ID, seed, "corr")
         found: list[dict] = []
         variant, wfound = infer_variant(chk)
         chk.info("inferred_variant", variant)
+        if variant.pop("unifiesFresh"):
+            chk.note("finding F1 is repaired in this source: fresh-name merges of symbols with different assumptions now give ONE "
+                     "symbol; those cases are outside the Lean model (theorem fresh_merge_with_different_assumptions_does_not_couple "
+                     "describes the unrepaired behaviour) and are skipped — update Model/C17Rename.lean with a third switch")
+            variant_f1 = True
+        else:
+            variant_f1 = False
         if not all(variant.values()):
             chk.broken_correspondence("variant", f"the code implements the unsound variant {variant}: the theorems (stated for the sound variant) do not apply")
         found += wfound
+        variant = dict(variant, unifiesFresh=variant_f1)
+        self._f1_repaired = variant_f1
 
         conv = corr.Conv()
         models = [(label, m, "real") for label, m in corr.load_real_models()]
@@ -190,6 +205,7 @@ class C17Property:
                             "synthetic": sum(1 for _, _, k in models if k == "synthetic")})
 
         lines = [f"variant {int(variant['collectsParams'])} {int(variant['reusesExisting'])}"]
+        sweep = self.start_hash_sweep(tier, seed)
         expect: list[tuple] = [("ok", None)]
         # natural_sorting keys
         key_names = set()
@@ -224,12 +240,21 @@ class C17Property:
                 start = rng.randrange(len(pool))
                 for j, s in enumerate(seqs):
                     s[0] = pool[(start + j) % len(pool)]
+            self._history.append((label, m0, oracle_mod.snapshot(m0)))
             for seq in seqs:
                 cur = m0
-                for step, kname in enumerate(seq):
+                plan: list = list(seq)
+                step = 0
+                while step < len(plan):
+                    kname = plan[step]
                     try:
                         info = corr.model_info(cur)
-                        ren = corr.gen_map(rng, info, kname)
+                        inverse_of = None
+                        if isinstance(kname, tuple):  # ("inverse", map, index of the forward case)
+                            _, ren, inverse_of = kname
+                            kname = "inverse"
+                        else:
+                            ren = corr.gen_map(rng, info, kname)
                         bound = corr.bound_symbols(cur)
                         collected = {s for v in info["by_name"].values() for s in v}
                         if bound & collected:
@@ -242,16 +267,23 @@ class C17Property:
                         for nm in list(rd) + list(rd.values()):
                             if not corr.name_in_sort_domain(nm):
                                 raise corr.Skip("name outside the natural_sorting domain")
+                        if variant.get("unifiesFresh") and corr.fresh_merge_of_different_assumptions(info, rd):
+                            raise corr.Skip("F1 repaired in the source: fresh-name merge of different assumptions is outside the model")
                         real = cur.rename_symbols(ren)
                         add_model(cur)
                         pairs = list(ren.items()) if isinstance(ren, dict) else list(ren)
                         lines.append("rename " + " ".join(f"{corr.enc_name(a)}:{corr.enc_name(b)}" for a, b in pairs))
                         case = {"model": label, "kind": kind, "step": step, "map_kind": kname, "renames": pairs,
-                                "before": cur, "after": real}
+                                "before": cur, "after": real, "inverse_of": inverse_of}
                         expect.append(("rename", case))
                         cases.append(case)
+                        self._history.append((f"{label} step {step}", real, oracle_mod.snapshot(real)))
                         kinds_hit[kname] = kinds_hit.get(kname, 0) + 1
+                        inv = corr.invertible(info, rd) if kname != "inverse" else None
+                        if inv and len(plan) < 4 and rng.random() < 0.5:  # rename, then rename back (on the same history)
+                            plan.insert(step + 1, ("inverse", inv, len(cases) - 1))
                         cur = real
+                        step += 1
                     except corr.Skip as e:
                         skipped[str(e)] = skipped.get(str(e), 0) + 1
                         break
@@ -326,7 +358,61 @@ class C17Property:
                                     "echo_round_trips": n_echo, "map_kinds": kinds_hit, "skipped": skipped,
                                     "steps_with_renamed_symbols": sum(1 for c in cases if c.get("renamed_by_model")),
                                     "node_classes": sorted(conv.cls_ids), "assumption_sets": len(conv.asms)})
+        found += self.finish_hash_sweep(chk, sweep)
         return cases, found
+
+    # ------------------------------------------------------------------ hash-seed sweep (HARDENING rule 6)
+    def start_hash_sweep(self, tier, seed):
+        import os
+        import subprocess
+
+        seeds = [1, 2, 3] if tier == "quick" else [1, 2, 3, 4, 5, 6]
+        n_synth = 6 if tier == "quick" else 40
+        procs = []
+        for h in seeds:
+            env = dict(os.environ, PYTHONHASHSEED=str(h))
+            procs.append((h, subprocess.Popen([common.PY, str(common.ROOT / "tools" / "corr" / "C17_hashprobe.py"), str(seed), str(n_synth)],
+                                              stdout=subprocess.PIPE, stderr=subprocess.PIPE, text=True, env=env, cwd=common.ROOT)))
+        return procs
+
+    def finish_hash_sweep(self, chk, procs):
+        import subprocess
+
+        results = {}
+        for h, p in procs:
+            try:
+                out, err = p.communicate(timeout=600)
+            except subprocess.TimeoutExpired as e:
+                p.kill()
+                raise common.InfraError("hash-seed sweep child timed out") from e
+            if p.returncode != 0:
+                chk.broken_correspondence("hash-sweep", f"child with PYTHONHASHSEED={h} failed: {err[-600:]}")
+                return []
+            results[h] = json.loads(out.strip().split("\n")[-1])
+        found = []
+        hs = sorted(results)
+        orders = {json.dumps(results[h]["orders"]) for h in hs}
+        base = results[hs[0]]["cases"]
+        differing = 0
+        for h in hs[1:]:
+            other = results[h]["cases"]
+            if [(c["model"], c["renames"]) for c in other] != [(c["model"], c["renames"]) for c in base]:
+                chk.broken_correspondence("hash-sweep", "the generated cases themselves depend on the hash seed (harness fault)")
+                break
+            for a, b in zip(base, other):
+                chk.count()
+                if a["digest"] != b["digest"]:
+                    differing += 1
+                    if differing <= 2:
+                        found.append({"what": "determinism: the result of rename_symbols depends on PYTHONHASHSEED",
+                                      "model": a["model"], "renames": a["renames"], "hash_seeds": [hs[0], h]})
+        chk.info("hash_sweep", {"hash_seeds": hs, "distinct_iteration_orders_of_collected_set": len(orders),
+                                "cases_per_process": len(base), "cases_differing": differing,
+                                "F2_two_unrenamed_symbols_share_target_name": {str(h): results[h]["f2"] for h in hs},
+                                "F2_depends_on_hash_seed": len({json.dumps(results[h]["f2"]) for h in hs}) > 1})
+        if len(orders) < 2:
+            chk.note("hash sweep: all child processes iterated the collected set in the same order (no evidence of order independence)")
+        return found
 
     # ------------------------------------------------------------------ oracle
     def oracle(self, chk, tier, seed, cases):
@@ -341,7 +427,10 @@ class C17Property:
         for c in cases:
             numeric = True
             if c["kind"] == "real":
-                left = numeric_left.setdefault(c["model"], NUMERIC_PER_REAL[tier])
+                budget = NUMERIC_PER_REAL[tier]
+                if "axisangle" in c["model"]:  # spinful axis-angle models take 8-30 s per numeric evaluation:
+                    budget = 0 if tier == "quick" else 1  # thorough only (the DPD-aligned models are evaluated in both tiers)
+                left = numeric_left.setdefault(c["model"], budget)
                 numeric = left > 0 and c.get("renamed_by_model", 1) > 0
                 if numeric:
                     numeric_left[c["model"]] = left - 1
@@ -349,6 +438,13 @@ class C17Property:
             fails, facts = oracle.check_case(c["before"], ren, rng=rng, numeric=numeric)
             chk.count()
             stats["cases"] += 1
+            # rename, then rename back: the round trip is the identity on the model
+            if c.get("inverse_of") is not None and c["inverse_of"] < len(cases):
+                stats["rename_back"] = stats.get("rename_back", 0) + 1
+                origin = cases[c["inverse_of"]]["before"]
+                if not oracle.same_model(c["after"], origin):
+                    fails = [*fails, {"clause": "history", "what": "renaming back with the inverse map does not give the model back",
+                                      "forward": cases[c["inverse_of"]]["renames"]}]
             stats["merges"] += 1 if facts.get("merged") else 0
             stats["ambiguous"] += 1 if facts.get("ambiguous") else 0
             stats["noncanonical_skipped"] += 1 if facts.get("noncanonical") else 0
@@ -363,6 +459,16 @@ class C17Property:
                 found.append({"what": f"{f['clause']}: {f['what']}", "model": c["model"], "step": c["step"],
                               "renames": c["renames"], "detail": f,
                               "parameter_defaults_before": str(c["before"].parameter_defaults)[:600]})
+        # histories: no model of any history (corpus models included) was changed by any later rename, lookup,
+        # assignment or pickling
+        mutated = 0
+        for desc, model, snap in getattr(self, "_history", []):
+            chk.count()
+            if oracle.snapshot(model) != snap:
+                mutated += 1
+                if mutated <= 2:
+                    found.append({"what": "original: a model of the history was changed by a later operation", "model": desc})
+        stats["history_models_rechecked"] = len(getattr(self, "_history", []))
         chk.info("oracle", stats)
         return found
 
